@@ -313,11 +313,20 @@ def ctx678(ctx: Ctx) -> None:
         if len(inner) == 1:
             a, b = method_pair(inner[0].body), method_pair(inner[0].orelse)
             cond = norm(inner[0].test)
-            okb = a == [("enter_context", "enter_async_context")] and b == [("push", "push_async_exit")] and "('__exit__', '__aexit__')" in cond and f"{cb_v}.__func__.__name__" in cond
+            at = [f"isinstance({cb_v}, types.MethodType)", f"{cb_v}.__func__.__name__ in ('__exit__', '__aexit__')"]
+            try:
+                okc, _ = equivalent(inner[0].test, lambda e: (not e[at[0]]) or e[at[1]], at)
+            except AnalysisError:
+                okc = False
+            # short-circuit order matters: __func__ may only be read once the callback is known to be a MethodType
+            okorder = isinstance(inner[0].test, ast.BoolOp) and isinstance(inner[0].test.op, ast.Or) and "isinstance(" in norm(inner[0].test.values[0])
+            okb = a == [("enter_context", "enter_async_context")] and b == [("push", "push_async_exit")] and okc and okorder
         if okb:
             ctx.R.ok("CTX-6", "bound __exit__/__aexit__ -> enter_context|enter_async_context; other bound method -> push|push_async_exit")
         else:
-            ctx.R.fail("CTX-6", mod, t, "a callback with __self__ must be classified as enter_(async_)context when it is the manager's __exit__/__aexit__ and as push(_async_exit) otherwise", construct="bound-method classification")
+            ctx.R.fail("CTX-6", mod, t, "a callback with __self__ must be classified as enter_(async_)context iff it is not a Python-level bound method or it is the manager's __exit__/__aexit__, "
+                       "and as push(_async_exit) otherwise; `.__func__` may only be read after the isinstance(..., types.MethodType) test (C-level bound methods have __self__ but no __func__: "
+                       "AttributeError loses every child of the stack)", construct="bound-method classification")
         for v in versions:
             if all(r.startswith("MethodType(") for r in CL[v]["exit_wrapper_returns"]):
                 ctx.R.ok("CTX-6", f"{v}: contextlib wraps a manager's exit as MethodType(cm_exit, cm) (so __self__ is the manager)")
@@ -360,6 +369,12 @@ def ctx678(ctx: Ctx) -> None:
         ctx.R.fail("CTX-6", mod, el, "closure cells must be located by the names 'args' and 'kwds'", construct="closure cell lookup")
     # --- CTX-8 polarity and child construction
     cc = [c for c in ast.walk(loop) if isinstance(c, ast.Call) and norm(c.func) == "Context"]
+    clones = [c for c in ast.walk(loop) if isinstance(c, ast.Call) and norm(c.func) in ("replace", "dataclasses.replace") and c.args and norm(c.args[0]) == cv]
+    for c in clones:
+        ctx.R.fail("CTX-8", mod, c, "a child context is cloned from its parent with replace(): it inherits the parent's is_exiting / hide / inner_stack / children / description "
+                   "(a child of an exiting ExitStack is then treated as exiting and its generator's frames are not extracted)", construct=f"child = replace({cv}, ...)")
+    if clones and not cc:
+        cc = clones
     if len(cc) != 1:
         raise AnalysisError("CTX-8: child Context construction vanished")
     k = _kws(cc[0])
@@ -403,5 +418,54 @@ def ctx678(ctx: Ctx) -> None:
             ctx.R.fail("CTX-6", mod, g, f"CPython {v}: _GeneratorContextManagerBase attributes are {CL[v]['gcm_attrs']}", construct=f"{v}: GCM attrs")
 
 
-C04 = [slc1, slc2, slc3, slc4]
+def slc5(ctx: Ctx) -> None:
+    """SLC-5 the reversed-slice stop index `index(inner) - 1` must not be computed for index 0
+    (-1 wraps around: the stitched greenlet slice becomes empty)"""
+    mod = ctx.P.mod("_glue")
+    fn = mod.fn("unwrap_stackslice")
+    subs = [n for n in ast.walk(fn) if isinstance(n, ast.BinOp) and isinstance(n.op, ast.Sub) and isinstance(n.right, ast.Constant) and n.right.value == 1
+            and isinstance(n.left, ast.Call) and isinstance(n.left.func, ast.Attribute) and n.left.func.attr == "index"]
+    if len(subs) != 1:
+        raise AnalysisError(f"SLC-5: {len(subs)} `<list>.index(<frame>) - 1` expressions found (1 confirmed by hand)")
+    e = subs[0]
+    lst, item = norm(e.left.func.value), norm(e.left.args[0])
+    # collect the conditions under which this expression is evaluated (if/else statements and IfExp arms)
+    conds = []
+    child = e
+    for a in mod.ancestors(e):
+        if a is fn:
+            break
+        if isinstance(a, ast.IfExp):
+            if child is a.body or any(child is x for x in ast.walk(a.body)):
+                conds.append((a.test, True))
+            elif any(child is x for x in ast.walk(a.orelse)):
+                conds.append((a.test, False))
+        elif isinstance(a, ast.If):
+            if any(child is x for b in a.body for x in ast.walk(b)):
+                conds.append((a.test, True))
+            elif any(child is x for b in a.orelse for x in ast.walk(b)):
+                conds.append((a.test, False))
+        child = a
+    atom0 = f"{lst}[0] is {item}"
+    import itertools
+    from ..util import Atomizer
+    az = Atomizer()
+    fs = [(az.compile(c), pol) for c, pol in conds]
+    if atom0 not in az.atoms:
+        ok = False
+    else:
+        i0 = az.atoms.index(atom0)
+        ok = True
+        for vals in itertools.product([False, True], repeat=len(az.atoms)):
+            if all(f(vals) == pol for f, pol in fs) and vals[i0]:
+                ok = False  # the expression can be evaluated although the item is at index 0
+    if ok:
+        ctx.R.ok("SLC-5", f"`{norm(e)}` is evaluated only when `{atom0}` is false (index 0 is mapped to an open slice end instead)")
+    else:
+        ctx.R.fail("SLC-5", mod, e, f"`{norm(e)}` can be evaluated when {item} is {lst}[0]: the stop index becomes -1, which addresses the *last* element, so the greenlet-stitched slice "
+                   "`[to_idx:from_idx:-1]` is empty and extraction silently falls back to an f_back walk that stops at the greenlet boundary",
+                   construct=f"{norm(e)} unguarded against index 0")
+
+
+C04 = [slc1, slc2, slc3, slc4, slc5]
 C09 = [gcm1, ctx678]
